@@ -5,6 +5,7 @@
 package probe
 
 import (
+	"bufio"
 	"bytes"
 	"context"
 	"errors"
@@ -16,6 +17,7 @@ import (
 	"strconv"
 	"strings"
 	"sync"
+	"sync/atomic"
 	"time"
 
 	"github.com/a-h/templ"
@@ -23,8 +25,10 @@ import (
 )
 
 // Op is one step of a component body.
-//   W: write S   L: literal number I (1-based) through templruntime.WriteString   O: once handle H around Body
-//   N: templ.NewOnceHandle()   E: return an error   F: templ.Flush()   C: call shared component I as a nested component
+//
+//	W: write S   L: literal number I (1-based) through templruntime.WriteString   O: once handle H around Body
+//	N: templ.NewOnceHandle()   E: return an error   F: templ.Flush()   C: call shared component I as a nested component
+//	S: templ.RenderCSSItems / templ.RenderScriptItems for item I of the scenario (a CSS component or a script template)
 type Op struct {
 	K    string `json:"k"`
 	S    string `json:"s,omitempty"`
@@ -34,23 +38,50 @@ type Op struct {
 }
 
 type Render struct {
-	C       int  `json:"c"`       // index into the shared components
-	Handler bool `json:"handler"` // through templ.Handler(...).ServeHTTP (bytes.Buffer pool) instead of Render
+	C       int    `json:"c"`               // index into the shared components
+	Handler bool   `json:"handler"`         // through templ.Handler(...).ServeHTTP (bytes.Buffer pool) instead of Render
+	Mw      bool   `json:"mw,omitempty"`    // the request goes through the scenario's templ.NewCSSMiddleware instance first
+	Head    string `json:"head,omitempty"`  // written by the goroutine itself to its writer before the render
+	Tail    string `json:"tail,omitempty"`  // ... and after it
+	Flush   bool   `json:"flush,omitempty"` // the goroutine then flushes its own bufio.Writer
+	Fresh   int    `json:"fresh,omitempty"` // before the render: 1 take the pooled Buffers out of the pool for good, 2 two garbage collections (sync.Pool drops its entries)
 }
+
+// Kinds of destination a goroutine hands to its renders.
+const (
+	DestSink       = 0 // its *Sink (an http.Flusher)
+	DestBufioBig   = 1 // its own *bufio.Writer in front of the sink, at least as large as templ's buffer, kept for all its renders
+	DestBufioSmall = 2 // the same, smaller than templ's buffer
+	DestOwnBuffer  = 3 // a *templruntime.Buffer it obtained itself with GetBuffer(sink) and releases after its last render
+	DestBytes      = 4 // a *bytes.Buffer (no http.Flusher)
+)
 
 type Goroutine struct {
 	Renders []Render `json:"renders"`
 	Cap     int      `json:"cap"`  // the writer fails after this many bytes (<0: never)
 	Slow    int      `json:"slow"` // 0 plain, 1 yields in Write, 2 sleeps in Write
+	Dest    int      `json:"dest,omitempty"`
+	BufSize int      `json:"bufsize,omitempty"` // size of its own bufio.Writer
+	Nonce   string   `json:"nonce,omitempty"`   // templ.WithNonce on every request context
+}
+
+// Item is a CSS component (templ.ComponentCSSClass) or a script template (templ.ComponentScript).
+type Item struct {
+	Kind string `json:"kind"` // "class" | "script"
+	ID   string `json:"id"`
+	Body string `json:"body"`
 }
 
 type Scenario struct {
-	Comps   [][]Op      `json:"comps"`
-	Handles int         `json:"handles"`
-	Lits    []string    `json:"lits"`    // compiled-in literals (what L writes outside development mode)
-	DevLits []string    `json:"devlits"` // lines of the development-mode text file
-	Gor     []Goroutine `json:"gor"`
-	Touch   bool        `json:"touch"` // development mode: keep advancing the text file's modification time during the run
+	Comps      [][]Op      `json:"comps"`
+	Handles    int         `json:"handles"`
+	Lits       []string    `json:"lits"`    // compiled-in literals (what L writes outside development mode)
+	DevLits    []string    `json:"devlits"` // lines of the development-mode text file
+	Gor        []Goroutine `json:"gor"`
+	Touch      bool        `json:"touch"` // development mode: keep advancing the text file's modification time during the run
+	Items      []Item      `json:"items,omitempty"`
+	Registered []int       `json:"registered,omitempty"` // items (classes) in the middleware's global stylesheet
+	Rounds     int         `json:"rounds,omitempty"`     // concurrent run: the renders are split into this many bursts, each on a new middleware instance (a restarted server)
 }
 
 type Result struct {
@@ -68,7 +99,35 @@ var (
 )
 
 type stateKey struct{}
-type state struct{ ids []int64 }
+type state struct {
+	ids  []int64
+	gate func(where string) // interleaved runs: a point at which another goroutine may be scheduled
+}
+
+func gateOf(ctx context.Context, where string) {
+	if st, ok := ctx.Value(stateKey{}).(*state); ok && st.gate != nil {
+		st.gate(where)
+	}
+}
+
+var items []Item
+
+// Mw is the CSS middleware instance of the running scenario; its next handler serves the page named in the request context.
+var Mw http.Handler
+
+type pageKey struct{}
+type page struct {
+	c       int
+	handler bool
+	failed  bool
+	slow    int
+}
+
+// Moving is the goroutine an interleaved run has just let go (-1 outside interleaved runs).
+var Moving = -1
+
+// FreshBuffers counts the Buffers the runtime pool had to construct (bufferPool.New) since Setup.
+var FreshBuffers int64
 
 var ErrProbe = errors.New("probe: expression error")
 
@@ -131,8 +190,15 @@ func component(ops []Op) templ.Component {
 				templ_7745c5c3_Err = templ.Flush().Render(ctx, templ_7745c5c3_Buffer)
 			case "C":
 				templ_7745c5c3_Err = Shared[op.I].Render(ctx, templ_7745c5c3_Buffer)
+			case "S":
+				if it := items[op.I]; it.Kind == "class" {
+					templ_7745c5c3_Err = templ.RenderCSSItems(ctx, templ_7745c5c3_Buffer, templ.ComponentCSSClass{ID: it.ID, Class: templ.SafeCSS(it.Body)})
+				} else {
+					templ_7745c5c3_Err = templ.RenderScriptItems(ctx, templ_7745c5c3_Buffer, templ.ComponentScript{Name: it.ID, Function: it.Body})
+				}
 			}
 			hook(op.K, templ_7745c5c3_Buffer)
+			gateOf(ctx, op.K)
 			if templ_7745c5c3_Err != nil {
 				return templ_7745c5c3_Err
 			}
@@ -144,6 +210,12 @@ func component(ops []Op) templ.Component {
 // Setup builds the shared components and handles (once per process, like package-level vars).
 func Setup(sc *Scenario) {
 	lits = sc.Lits
+	items = sc.Items
+	atomic.StoreInt64(&FreshBuffers, 0)
+	templruntime.VerifC14Pool().New = func() any {
+		atomic.AddInt64(&FreshBuffers, 1)
+		return new(templruntime.Buffer)
+	}
 	Handles = nil
 	for i := 0; i < sc.Handles; i++ {
 		Handles = append(Handles, templ.NewOnceHandle())
@@ -152,6 +224,45 @@ func Setup(sc *Scenario) {
 	for i, ops := range sc.Comps {
 		Shared[i] = component(ops)
 	}
+	Mw = NewMw(sc)
+}
+
+// ItemElement is the element RenderCSSItems / RenderScriptItems emits for the item (once per context).
+func ItemElement(it Item, nonce string) string {
+	if it.Kind == "class" {
+		return `<style type="text/css">` + it.Body + `</style>`
+	}
+	if nonce != "" {
+		return `<script nonce="` + nonce + `">` + it.Body + `</script>`
+	}
+	return `<script>` + it.Body + `</script>`
+}
+
+// NewMw is templ.NewCSSMiddleware(next, registered classes...) as a site sets it up once at start.
+func NewMw(sc *Scenario) http.Handler {
+	var classes []templ.CSSClass
+	for _, i := range sc.Registered {
+		classes = append(classes, templ.ComponentCSSClass{ID: sc.Items[i].ID, Class: templ.SafeCSS(sc.Items[i].Body)})
+	}
+	next := http.HandlerFunc(func(w http.ResponseWriter, r *http.Request) {
+		pg := r.Context().Value(pageKey{}).(*page)
+		// the request is past the middleware and has not started rendering
+		gateOf(r.Context(), "past-middleware")
+		if pg.slow > 0 {
+			runtime.Gosched()
+		}
+		if pg.handler {
+			templ.Handler(Shared[pg.c], templ.WithErrorHandler(func(_ *http.Request, err error) http.Handler {
+				pg.failed = true
+				return nopHandler
+			})).ServeHTTP(w, r)
+			return
+		}
+		if err := Shared[pg.c].Render(r.Context(), w); err != nil {
+			pg.failed = true
+		}
+	})
+	return templ.NewCSSMiddleware(next, classes...)
 }
 
 // ---------- writers ----------
@@ -201,44 +312,181 @@ func (r *respWriter) Header() http.Header         { return r.h }
 func (r *respWriter) WriteHeader(int)             {}
 func (r *respWriter) Write(p []byte) (int, error) { return r.w.Write(p) }
 
+// flushRespWriter is a response writer that is also an http.Flusher (as net/http's is), passing Flush on.
+type flushRespWriter struct {
+	respWriter
+	f http.Flusher
+}
+
+func (r *flushRespWriter) Flush() { r.f.Flush() }
+
+// responseWriter wraps the goroutine's writer for a request served without templ.Handler.
+func responseWriter(w io.Writer) http.ResponseWriter {
+	if f, ok := w.(http.Flusher); ok {
+		return &flushRespWriter{respWriter{w: w, h: http.Header{}}, f}
+	}
+	return &respWriter{w: w, h: http.Header{}}
+}
+
 var nopHandler = http.HandlerFunc(func(http.ResponseWriter, *http.Request) {})
 
 // handlerErr records whether the handler's render failed.
 type errFlag struct{ failed bool }
 
-// RunGoroutine performs one goroutine's renders on its own sink.
+// Client is one goroutine of a scenario with its own writer and what it put in front of it.
+type Client struct {
+	G    Goroutine
+	Sink *Sink                // kinds 0-3: where the bytes end up
+	BB   *bytes.Buffer        // kind 4
+	BW   *bufio.Writer        // kinds 1, 2: the goroutine's own buffered writer
+	TB   *templruntime.Buffer // kind 3
+	W    io.Writer            // what the renders are handed
+	st   *state
+	Res  Result
+}
+
+// Step is one thing the goroutine does between two points at which others may run.
+type Step struct {
+	Name   string
+	Render int // index of the render it belongs to
+	Do     func()
+}
+
+func NewClient(g Goroutine) *Client {
+	c := &Client{G: g, Sink: &Sink{Cap: g.Cap, Slow: g.Slow}, st: &state{}, Res: Result{Flushes: []int{}, IDs: []int64{}}}
+	c.W = c.Sink
+	if g.Dest == DestBytes {
+		c.BB = &bytes.Buffer{}
+		c.W = c.BB
+	}
+	return c
+}
+
+// Snapshot is what an observer can see of the client's destination: bytes received, calls, bytes its own bufio.Writer holds.
+func (c *Client) Snapshot() [5]int {
+	s := [5]int{c.Sink.Buf.Len(), len(c.Sink.Writes), len(c.Sink.Flushes), -1, -1}
+	if c.BB != nil {
+		s[0] = c.BB.Len()
+	}
+	if c.BW != nil {
+		s[3] = c.BW.Buffered()
+	}
+	if c.TB != nil {
+		s[4] = c.TB.VerifC14Buffered()
+	}
+	return s
+}
+
+func (c *Client) render(r Render) {
+	ctx := context.WithValue(context.Background(), stateKey{}, c.st)
+	if c.G.Nonce != "" {
+		ctx = templ.WithNonce(ctx, c.G.Nonce)
+	}
+	switch {
+	case r.Mw:
+		pg := &page{c: r.C, handler: r.Handler, slow: c.G.Slow}
+		req, _ := http.NewRequestWithContext(context.WithValue(ctx, pageKey{}, pg), "GET", "/", nil)
+		if r.Handler {
+			Mw.ServeHTTP(&respWriter{w: c.W, h: http.Header{}}, req)
+		} else {
+			Mw.ServeHTTP(responseWriter(c.W), req)
+		}
+		c.Res.Errs = append(c.Res.Errs, pg.failed)
+	case r.Handler:
+		ef := &errFlag{}
+		h := templ.Handler(Shared[r.C], templ.WithErrorHandler(func(_ *http.Request, err error) http.Handler {
+			ef.failed = true
+			return nopHandler
+		}))
+		req, _ := http.NewRequestWithContext(ctx, "GET", "/", nil)
+		h.ServeHTTP(&respWriter{w: c.W, h: http.Header{}}, req)
+		c.Res.Errs = append(c.Res.Errs, ef.failed)
+	default:
+		err := Shared[r.C].Render(ctx, c.W)
+		c.Res.Errs = append(c.Res.Errs, err != nil)
+	}
+}
+
+// Steps lists what the goroutine does, in order. after (may be nil) runs after every render.
+func (c *Client) Steps(after func()) []Step {
+	var st []Step
+	g := c.G
+	switch g.Dest {
+	case DestBufioBig, DestBufioSmall:
+		st = append(st, Step{"own bufio.NewWriterSize", 0, func() { c.BW = bufio.NewWriterSize(c.Sink, g.BufSize); c.W = c.BW }})
+	case DestOwnBuffer:
+		st = append(st, Step{"own templruntime.GetBuffer", 0, func() { c.TB, _ = templruntime.GetBuffer(c.Sink); c.W = c.TB }})
+	}
+	for i, r := range g.Renders {
+		i, r := i, r
+		switch r.Fresh {
+		case 1:
+			st = append(st, Step{"pool emptied", i, func() {
+				for k := 0; k < 24; k++ {
+					templruntime.GetBuffer(io.Discard)
+				}
+			}})
+		case 2:
+			st = append(st, Step{"two garbage collections", i, func() { runtime.GC(); runtime.GC() }})
+		}
+		if r.Head != "" {
+			st = append(st, Step{"own write (header)", i, func() { io.WriteString(c.W, r.Head) }})
+		}
+		st = append(st, Step{"render", i, func() {
+			c.render(r)
+			if after != nil {
+				after()
+			}
+		}})
+		if r.Tail != "" {
+			st = append(st, Step{"own write (trailer)", i, func() { io.WriteString(c.W, r.Tail) }})
+		}
+		if r.Flush && c.hasOwnBufio() {
+			st = append(st, Step{"own flush", i, func() { c.BW.Flush() }})
+		}
+	}
+	last := len(g.Renders) - 1
+	switch g.Dest {
+	case DestBufioBig, DestBufioSmall:
+		st = append(st, Step{"own flush (final)", last, func() { c.BW.Flush() }})
+	case DestOwnBuffer:
+		st = append(st, Step{"own templruntime.ReleaseBuffer", last, func() { templruntime.ReleaseBuffer(c.TB); c.TB = nil }})
+	}
+	return st
+}
+
+func (c *Client) hasOwnBufio() bool { return c.G.Dest == DestBufioBig || c.G.Dest == DestBufioSmall }
+
+// Result is what the goroutine's writer has received so far.
+func (c *Client) Result() Result {
+	res := c.Res
+	if c.BB != nil {
+		res.Out = c.BB.String()
+	} else {
+		res.Out = c.Sink.Buf.String()
+	}
+	res.Flushes = append([]int{}, c.Sink.Flushes...)
+	res.IDs = append([]int64{}, c.st.ids...)
+	return res
+}
+
+// RunGoroutine performs one goroutine's renders on its own writer.
 func RunGoroutine(g Goroutine) Result {
-	sink := &Sink{Cap: g.Cap, Slow: g.Slow}
-	return RunGoroutineOn(g, sink, sink, nil)
+	c := NewClient(g)
+	for _, s := range c.Steps(nil) {
+		s.Do()
+	}
+	return c.Result()
 }
 
 // RunGoroutineOn is RunGoroutine on a given sink; w is the writer handed to the renders (the sink or a wrapper of it).
 func RunGoroutineOn(g Goroutine, sink *Sink, w io.Writer, after func()) Result {
-	st := &state{}
-	res := Result{Flushes: []int{}, IDs: []int64{}}
-	for _, r := range g.Renders {
-		ctx := context.WithValue(context.Background(), stateKey{}, st)
-		if r.Handler {
-			ef := &errFlag{}
-			h := templ.Handler(Shared[r.C], templ.WithErrorHandler(func(_ *http.Request, err error) http.Handler {
-				ef.failed = true
-				return nopHandler
-			}))
-			req, _ := http.NewRequestWithContext(ctx, "GET", "/", nil)
-			h.ServeHTTP(&respWriter{w: w, h: http.Header{}}, req)
-			res.Errs = append(res.Errs, ef.failed)
-		} else {
-			err := Shared[r.C].Render(ctx, w)
-			res.Errs = append(res.Errs, err != nil)
-		}
-		if after != nil {
-			after()
-		}
+	c := NewClient(g)
+	c.Sink, c.W = sink, w
+	for _, s := range c.Steps(after) {
+		s.Do()
 	}
-	res.Out = sink.Buf.String()
-	res.Flushes = append(res.Flushes, sink.Flushes...)
-	res.IDs = append(res.IDs, st.ids...)
-	return res
+	return c.Result()
 }
 
 // Sequential runs every goroutine's renders one after the other on the calling goroutine: the reference.
@@ -250,21 +498,118 @@ func Sequential(sc *Scenario) []Result {
 	return out
 }
 
-// Concurrent runs them all at once, released together.
+// Concurrent runs them all at once, released together; with Rounds > 1 in that many bursts, each on a new middleware
+// instance (all goroutines wait for each other between bursts).
 func Concurrent(sc *Scenario) []Result {
-	out := make([]Result, len(sc.Gor))
-	var wg sync.WaitGroup
-	start := make(chan struct{})
-	for i := range sc.Gor {
-		wg.Add(1)
-		go func(i int) {
-			defer wg.Done()
-			<-start
-			out[i] = RunGoroutine(sc.Gor[i])
-		}(i)
+	n := len(sc.Gor)
+	clients := make([]*Client, n)
+	steps := make([][]Step, n)
+	maxR := 0
+	for i, g := range sc.Gor {
+		clients[i] = NewClient(g)
+		steps[i] = clients[i].Steps(nil)
+		if len(g.Renders) > maxR {
+			maxR = len(g.Renders)
+		}
 	}
-	close(start)
-	wg.Wait()
+	rounds := sc.Rounds
+	if rounds < 1 {
+		rounds = 1
+	}
+	if rounds > maxR && maxR > 0 {
+		rounds = maxR
+	}
+	pos := make([]int, n)
+	for r := 0; r < rounds; r++ {
+		hi := (r + 1) * maxR / rounds // renders with index < hi belong to this or an earlier burst
+		if r > 0 {
+			Mw = NewMw(sc)
+		}
+		var wg sync.WaitGroup
+		start := make(chan struct{})
+		for i := 0; i < n; i++ {
+			wg.Add(1)
+			go func(i int) {
+				defer wg.Done()
+				<-start
+				for pos[i] < len(steps[i]) && (r == rounds-1 || steps[i][pos[i]].Render < hi) {
+					steps[i][pos[i]].Do()
+					pos[i]++
+				}
+			}(i)
+		}
+		close(start)
+		wg.Wait()
+	}
+	out := make([]Result, n)
+	for i := range clients {
+		out[i] = clients[i].Result()
+	}
+	return out
+}
+
+// Visit describes one scheduled move of an interleaved run.
+type Visit struct {
+	Who   int    // the goroutine that moved
+	Where string // where it stopped ("done" when it finished)
+}
+
+// Interleaved runs the goroutines of the scenario one at a time in the order the schedule gives: an entry lets that
+// goroutine run up to its next gate (the end of a step of Steps, the point just past the middleware, the end of an op inside
+// a render). Goroutines the schedule leaves unfinished are then run to completion in turn. observe is called after every move.
+func Interleaved(sc *Scenario, sched []int, observe func(v Visit, clients []*Client)) []Result {
+	n := len(sc.Gor)
+	clients := make([]*Client, n)
+	goCh := make([]chan struct{}, n)
+	ack := make([]chan string, n)
+	for i, g := range sc.Gor {
+		i := i
+		clients[i] = NewClient(g)
+		goCh[i] = make(chan struct{})
+		ack[i] = make(chan string)
+		clients[i].st.gate = func(where string) {
+			ack[i] <- where
+			<-goCh[i]
+		}
+		go func() {
+			<-goCh[i]
+			for _, s := range clients[i].Steps(nil) {
+				s.Do()
+				clients[i].st.gate(s.Name)
+			}
+			ack[i] <- "done"
+		}()
+	}
+	done := make([]bool, n)
+	move := func(i int) {
+		Moving = i
+		goCh[i] <- struct{}{}
+		where := <-ack[i]
+		if where == "done" {
+			done[i] = true
+		}
+		if observe != nil {
+			observe(Visit{i, where}, clients)
+		}
+	}
+	for _, i := range sched {
+		if i >= 0 && i < n && !done[i] {
+			move(i)
+		}
+	}
+	for left := true; left; {
+		left = false
+		for i := 0; i < n; i++ {
+			if !done[i] {
+				move(i)
+				left = true
+			}
+		}
+	}
+	out := make([]Result, n)
+	for i := range clients {
+		out[i] = clients[i].Result()
+	}
 	return out
 }
 
